@@ -187,42 +187,76 @@ Theorem C08_defaults_fill : forall t d,
 Proof. exact build_defaults_fill. Qed.
 Print Assumptions C08_defaults_fill.
 
-(* ---- refuted at full strength once a timeout is combined with retry / wait-before / wait-after:
-        the faithful model (and the real code: corpus of harness/suites/C08.py) exhibits it ---- *)
+(* With the guards of the delayed jobs: for EVERY well-typed configuration (timeouts included) and EVERY event
+   sequence a completed task is final ... *)
+Theorem C08_final_is_final_all : forall c evs evs', cfg_ok c = true -> is_completed (s_state (run c evs)) = true ->
+  let s := run c evs in let s' := run c (evs ++ evs') in
+  s_state s' = s_state s /\ s_info s' = s_info s /\ s_disp s' = s_disp s /\ s_rno s' = s_rno s /\
+  length (s_acts s') = length (s_acts s).
+Proof. exact c_finality_all. Qed.
+Print Assumptions C08_final_is_final_all.
 
-(* "a completed task stays completed" / "stops": a stale continue job revives a task failed by its timeout *)
-Theorem C08_final_is_final_refuted :
-  exists c evs j, cfg_ok c = true /\
-    let s := run c evs in
-    s_early (step c s (EFire j)) = false /\
-    s_state s = ERROR /\ s_info s = ITimeout /\ length (s_disp s) = 1%nat /\
-    s_state (step c s (EFire j)) = RUNNING /\
-    length (s_acts (step c s (EFire j))) = S (length (s_acts s)).
-Proof. exact stale_continue_job_revives_completed_task. Qed.
-Print Assumptions C08_final_is_final_refuted.
+(* ... and its follow-up commands are dispatched at most once, only when it is completed. *)
+Theorem C08_follow_ups_at_most_once : forall c evs, cfg_ok c = true ->
+  let s := run c evs in
+  s_disp s = [] \/ (is_completed (s_state s) = true /\ length (s_disp s) = 1%nat).
+Proof. exact c_follow_ups_at_most_once. Qed.
+Print Assumptions C08_follow_ups_at_most_once.
 
-Theorem C08_follow_ups_once_refuted :
-  exists c evs, cfg_ok c = true /\ s_early (run c evs) = false /\ length (s_disp (run c evs)) = 2%nat.
-Proof. exact follow_ups_dispatched_twice. Qed.
-Print Assumptions C08_follow_ups_once_refuted.
+(* ---- regression: the former witnesses against finality, the verdict and the timeout clause are clean ---- *)
+Theorem C08_regression_stale_continue_job :
+  cfg_ok w1_cfg = true /\ s_early (run w1_cfg w1_evs) = false /\
+  s_state (run w1_cfg w1_evs) = ERROR /\ s_info (run w1_cfg w1_evs) = ITimeout /\
+  length (s_acts (run w1_cfg w1_evs)) = 1%nat /\ length (s_disp (run w1_cfg w1_evs)) = 1%nat /\ s_jobs (run w1_cfg w1_evs) = [].
+Proof. exact stale_continue_job_ignored. Qed.
+Print Assumptions C08_regression_stale_continue_job.
 
-(* "ends SUCCESS iff its last attempt counts as success": a stale wait-after job *)
-Theorem C08_retry_verdict_refuted :
-  exists c evs, cfg_ok c = true /\ s_early (run c evs) = false /\
-    s_state (run c evs) = SUCCESS /\
-    exists a, nth_error (s_acts (run c evs)) (pred (length (s_acts (run c evs)))) = Some a /\ a_state a = RUNNING.
-Proof. exact success_while_last_attempt_running. Qed.
-Print Assumptions C08_retry_verdict_refuted.
+Theorem C08_regression_stale_wait_after_job :
+  cfg_ok w2_cfg = true /\ s_early (run w2_cfg w2_evs) = false /\
+  s_state (run w2_cfg w2_evs) = RUNNING /\ length (s_acts (run w2_cfg w2_evs)) = 2%nat /\
+  s_disp (run w2_cfg w2_evs) = [] /\ s_jobs (run w2_cfg w2_evs) = [].
+Proof. exact stale_wait_after_job_ignored. Qed.
+Print Assumptions C08_regression_stale_wait_after_job.
 
-(* "incomplete at expiry => ERROR with the timeout message": undone by the late result of the timed-out attempt *)
+Theorem C08_regression_late_result :
+  cfg_ok w3_cfg = true /\ s_early (run w3_cfg w3_evs) = false /\
+  s_state (run w3_cfg w3_evs) = ERROR /\ s_info (run w3_cfg w3_evs) = ITimeout /\
+  map a_state (s_acts (run w3_cfg w3_evs)) = [ERROR] /\ s_disp (run w3_cfg w3_evs) = [(7, ERROR)].
+Proof. exact late_result_of_timed_out_attempt_ignored. Qed.
+Print Assumptions C08_regression_late_result.
+
+(* ---- still refuted at full strength (open findings stale-wait-after-job / stale-continue-job): a job of an older
+        delay that finds the task DELAYED again, by a newer delay scheduled after the timer failed the task, still acts ---- *)
+
+(* "incomplete at expiry => ERROR with the timeout message": undone by the wait-after job of the attempt before the timeout *)
 Theorem C08_timeout_refuted :
   exists c evs1 evs2 j jb, cfg_ok c = true /\
     nth_error (s_jobs (run c evs1)) j = Some jb /\ j_kind jb = JTimeout /\ j_at jb <= s_now (run c evs1) /\
     is_completed (s_state (run c evs1)) = false /\
     s_early (run c (evs1 ++ EFire j :: evs2)) = false /\
-    s_state (run c (evs1 ++ EFire j :: evs2)) = SUCCESS /\ s_jobs (run c (evs1 ++ EFire j :: evs2)) = [].
-Proof. exact timeout_undone_by_late_result. Qed.
+    s_state (run c (evs1 ++ EFire j :: evs2)) = SUCCESS /\ s_jobs (run c (evs1 ++ EFire j :: evs2)) = [] /\
+    length (s_acts (run c (evs1 ++ EFire j :: evs2))) = 1%nat.
+Proof. exact timeout_undone_by_stale_wait_after_job. Qed.
 Print Assumptions C08_timeout_refuted.
+
+(* ... and by the wait-before job when the timeout is shorter than wait-before *)
+Theorem C08_timeout_wait_before_refuted :
+  exists c evs1 evs2 j jb, cfg_ok c = true /\
+    nth_error (s_jobs (run c evs1)) j = Some jb /\ j_kind jb = JTimeout /\ j_at jb <= s_now (run c evs1) /\
+    is_completed (s_state (run c evs1)) = false /\
+    s_early (run c (evs1 ++ EFire j :: evs2)) = false /\
+    s_state (run c (evs1 ++ EFire j :: evs2)) = SUCCESS /\ s_jobs (run c (evs1 ++ EFire j :: evs2)) = [].
+Proof. exact timeout_undone_by_stale_wait_before_job. Qed.
+Print Assumptions C08_timeout_wait_before_refuted.
+
+(* "every non-final failure is retried while retries remain" with a timeout: a retry is consumed without an attempt *)
+Theorem C08_retry_all_attempts_refuted :
+  exists c evs, cfg_ok c = true /\ s_early (run c evs) = false /\
+    is_completed (s_state (run c evs)) = true /\ s_jobs (run c evs) = [] /\
+    map h_res (s_hist (run c evs)) = [ERROR; ERROR] /\
+    N.of_nat (length (s_acts (run c evs))) < n_cnt (norm c) + 1 /\ n_hb (norm c) = false /\ n_hc (norm c) = false.
+Proof. exact stale_retry_job_consumes_a_retry. Qed.
+Print Assumptions C08_retry_all_attempts_refuted.
 
 (* non-vacuity: a well-typed configuration without timeout (retry 2 times after 3 s with continue-on and break-on,
    wait-before 2, wait-after 4, fail-on false) and a timed run with three attempts that satisfies the premises *)
